@@ -201,7 +201,7 @@ def gen_case(rng, params, idx):
             for p in m["pos"]:
                 if rng.random() < 0.4:
                     p["t"] = rng.choice(["ABCMeta", "ABCMeta", "object"])
-        cvals = [["c", "Shape"], ["c", "Hook"], ["c", "Hashable"], ["c", names[0]]]
+        cvals = [["c", "Shape"], ["c", "Hook"], ["c", "Hashable"], ["c", names[0]], ["c", "HasFly"], ["c", "HasFly"]]     # (a protocol class: its metaclass is a strict subclass of ABCMeta)
         spec["calls"] = calls + [{"pos": [rng.choice(cvals + vals) if j != k else rng.choice(cvals) for j in range(npos)], "kw": {}}
                                  for k in range(npos) for _ in range(8)]
         extras = extras + [{"mid": 95 + j, "pos": [{"n": f"a{i}", "t": (["Ty", rng.choice(["str", "int"])] if i == j else "object")}
